@@ -43,6 +43,16 @@ type c17Conn struct {
 	reqMc       atomic.Uint64
 }
 
+// c17Mute is a connection WITHOUT a writer (DeviceLocal.SetupRemoteDevice(ski, nil)): every datagram the stack wants
+// to send to it fails inside the Sender with an error, which is the one send fault the real Sender can produce (a
+// SHIP connection that is not yet / no longer writable). Inbound traffic works. It is set up lazily by the first
+// operation that uses it (the detailed discovery request of SetupRemoteDevice is then the first failing send).
+type c17Mute struct {
+	ski, addr string
+	mu        sync.Mutex // life cycle and inbound messages of this connection: one after the other, as SHIP delivers them
+	ctr       uint64
+}
+
 type c17W struct {
 	c      *rig.Ctx
 	w      *rig.World
@@ -54,6 +64,7 @@ type c17W struct {
 	meas2  api.FeatureLocalInterface // [2]/1 Measurement client
 	dd2    api.FeatureLocalInterface // [2]/2 DeviceDiagnosis server without heartbeat function
 	conns  []*c17Conn
+	mutes  [2]c17Mute
 	ent1   [3]api.EntityRemoteInterface // entity [1] of each connection as found when the world was built
 	state  int
 	soak   bool
@@ -305,6 +316,9 @@ func (cw *c17W) connect(i int) *c17Conn {
 func c17Build(c *rig.Ctx, tag string, state int, nconn int, soak bool) *c17W {
 	cw := &c17W{c: c, w: rig.NewWorld(tag), state: state, soak: soak, pend: make(chan *api.Message, 256), extras: map[string]bool{}}
 	cw.local = cw.w.Local
+	for i := range cw.mutes {
+		cw.mutes[i].ski, cw.mutes[i].addr, cw.mutes[i].ctr = fmt.Sprintf("%s-mute%d", tag, i), fmt.Sprintf("mute%d", i), uint64(9000000+1000000*i)
+	}
 	cw.e1 = cw.w.AddEntity(model.EntityTypeTypeCEM, []uint{1}, c17HbTimeout)
 	cw.lc = cw.e1.GetOrAddFeature(model.FeatureTypeTypeLoadControl, model.RoleTypeServer)
 	cw.lc.AddFunctionType(model.FunctionTypeLoadControlLimitListData, true, true)
@@ -372,6 +386,77 @@ func c17Build(c *rig.Ctx, tag string, state int, nconn int, soak bool) *c17W {
 	}
 	cw.w.Core.Take()
 	return cw
+}
+
+// muteIn makes sure mute connection i exists (reconnect: drop it first) and delivers the given inbound datagrams of
+// that peer one after the other; with announce its detailed discovery reply comes first (the handling of that reply
+// makes the local device subscribe to the peer's node management and request its use cases: two more failing sends,
+// issued from inside Events.Publish). Returns the remote device object.
+func (cw *c17W) muteIn(i int, reconnect, announce bool, msgs ...func(m *c17Mute, send func(cl model.CmdClassifierType, src, dst *model.FeatureAddressType, ack bool, ref *model.MsgCounterType, cmd model.CmdType))) api.DeviceRemoteInterface {
+	m := &cw.mutes[i%len(cw.mutes)]
+	m.mu.Lock()
+	defer m.mu.Unlock()
+	rd := cw.local.RemoteDeviceForSki(m.ski)
+	if rd != nil && reconnect {
+		cw.local.RemoveRemoteDeviceConnection(m.ski)
+		rd = nil
+	}
+	if rig.IsNil(rd) {
+		cw.mu.Lock()
+		cw.extras[m.ski] = true // removed by close()
+		cw.mu.Unlock()
+		cw.local.SetupRemoteDevice(m.ski, nil)
+		if rd = cw.local.RemoteDeviceForSki(m.ski); rig.IsNil(rd) {
+			return nil
+		}
+		announce = true
+	}
+	send := func(cl model.CmdClassifierType, src, dst *model.FeatureAddressType, ack bool, ref *model.MsgCounterType, cmd model.CmdType) {
+		mc := model.MsgCounterType(atomic.AddUint64(&m.ctr, 1))
+		b, err := json.Marshal(rig.Datagram(cl, src, dst, mc, ack, ref, cmd))
+		if err != nil {
+			panic("harness: cannot marshal datagram: " + err.Error())
+		}
+		if _, herr := rd.HandleSpineMesssage(b); herr != nil && strings.HasPrefix(herr.Error(), "invalid spine message:") {
+			what := herr.Error()
+			if len(what) > 120 {
+				what = what[:120]
+			}
+			cw.c.Violate("inbound-recovered-panic/"+string(cl), "handling of a well-formed %s datagram (%s) of a connection without writer panicked inside the stack and was recovered: %s\n datagram: %s", cl, cmd.DataName(), what, b)
+		}
+	}
+	if announce {
+		send(model.CmdClassifierTypeReply, rig.FA(m.addr, []uint{0}, 0), rig.LNM, false, util.Ptr(model.MsgCounterType(1)),
+			model.CmdType{NodeManagementDetailedDiscoveryData: (&rig.Peer{Ski: m.ski, Addr: m.addr}).Discovery(c17Feats(), nil, nil)})
+	}
+	for _, f := range msgs {
+		f(m, send)
+	}
+	return rd
+}
+
+// muteRequests issues the requests an application (and the stack on its behalf) sends to a peer: each of them fails
+// with the Sender's error on a connection without writer, and each must return.
+func (cw *c17W) muteRequests(i int, rd api.DeviceRemoteInterface, k int) {
+	if rig.IsNil(rd) {
+		return
+	}
+	m := &cw.mutes[i%len(cw.mutes)]
+	a := rig.FA(m.addr, []uint{1}, 2)
+	c17Rot(k, func() { _, _ = cw.local.RequestRemoteDetailedDiscoveryData(rd) },
+		func() { _, _ = cw.mcl.SubscribeToRemote(a) },
+		func() { _, _ = cw.mcl.BindToRemote(a) },
+		func() {
+			if f := rd.FeatureByAddress(a); !rig.IsNil(f) {
+				_, _ = cw.mcl.RequestRemoteData(model.FunctionTypeMeasurementListData, nil, nil, f)
+			}
+		},
+		func() {
+			if nm, ok := cw.local.NodeManagement().(*spine.NodeManagement); ok {
+				_, _ = nm.RequestUseCaseData(m.ski, rd.Address(), rd.Sender())
+			}
+		},
+		func() { _, _ = cw.meas2.SubscribeToRemote(rig.FA(m.addr, []uint{2}, 1)) })
 }
 
 // reconnect drops connection s and sets it up again (new DeviceRemote, new Tap), then announces and populates it.
